@@ -88,6 +88,13 @@ fn main() {
             out.flush().unwrap();
             eprintln!("c02-table cases={} compile_fail={} panics={}", st.cases, st.compile_fail, st.panics);
         }
+        "c20-table" => {
+            let thorough = arg(&args, "--tier") == Some("thorough");
+            let mut out = std::io::BufWriter::new(std::fs::File::create(&out_path).expect("open out"));
+            let st = drive_eval::c20_table(seed, thorough, &mut out);
+            out.flush().unwrap();
+            eprintln!("c20-table cases={} compile_fail={} panics={}", st.cases, st.compile_fail, st.panics);
+        }
         "run-vectors" => {
             // spec -> implementation: run every TLC-generated source text against the model's context
             let inp = arg(&args, "--in").expect("--in");
